@@ -140,15 +140,15 @@ mod verif_spy {
         std::mem::forget(r);
     }
 
-    //@H name=c12_spy_ctor props=C05,C13 bound="capacity 0..=64" fn=BufferedSpyMetricSink::with_capacity,new :: constructor: given capacity (512 when none), single newline terminator
+    //@H name=c12_spy_ctor props=C05,C13,C19 bound="capacity 0..=64 or 1000000" fn=BufferedSpyMetricSink::with_capacity,new :: constructor: given capacity (512 when none), single newline terminator
     #[kani::proof]
     #[kani::unwind(8)]
     fn c12_spy_ctor() {
-        let cap: Option<usize> = if kani::any() { None } else { let c: usize = kani::any(); kani::assume(c <= 64); Some(c) };
+        let cap: Option<usize> = if kani::any() { None } else if kani::any() { Some(1_000_000) } else { let c: usize = kani::any(); kani::assume(c <= 64); Some(c) };
         let (rx, s) = BufferedSpyMetricSink::with_capacity(None, cap);
         {
             let w = s.writer.lock().unwrap();
-            assert!(w.verif_capacity() == cap.unwrap_or(512), "[C05] capacity is the configured one, 512 bytes when none is given");
+            assert!(w.verif_capacity() == cap.unwrap_or(512), "[C05,C19] capacity is the configured one whatever its size, 512 bytes when none is given");
             assert!(w.verif_ending().len() == 1 && w.verif_ending()[0] == b'\n', "[C13] the terminator is a single newline");
             std::mem::forget(w);
         }
